@@ -1,12 +1,12 @@
 #!/bin/sh
 # usage: try_mutant.sh <seeded-dir> <PROP> [tier]   -- applies patch to /repo, runs check, reverts
-d=$1; p=$2; t=${3:-quick}
+d=$1; p=$2; t=${3:-quick}; [ -f "$d/patch.rebased.diff" ] && cp "$d/patch.rebased.diff" /tmp/cur.patch || cp "$d/patch.diff" /tmp/cur.patch
 cd /repo || exit 9
-if ! git apply --check "$d/patch.diff" 2>/dev/null; then
-  if ! git apply --3way "$d/patch.diff" 2>/dev/null; then echo "PATCH DOES NOT APPLY"; git checkout -- .; exit 9; fi
+if ! git apply --check /tmp/cur.patch 2>/dev/null; then
+  if ! git apply --3way /tmp/cur.patch 2>/dev/null; then echo "PATCH DOES NOT APPLY"; git reset -q --hard HEAD; exit 9; fi
   git reset -q
 else
-  git apply "$d/patch.diff"
+  git apply /tmp/cur.patch
 fi
 git diff --stat | tail -1
 cd /verif && tools/vcheck $p --tier $t > /tmp/mut-$p.log 2>&1; rc=$?
